@@ -134,7 +134,7 @@ def load_facts(verbose=False):
                     hh.update(f.encode())
                     hh.update(open(os.path.join(SRC, f), 'rb').read())
                 st_ = os.stat(NVX)
-                hh.update((' '.join(FLAGS) + '%d:%d' % (st_.st_size, int(st_.st_mtime))).encode())
+                hh.update((' '.join(FLAGS).replace(SRC, '$SRC').replace(REPO, '$REPO') + '%d:%d' % (st_.st_size, int(st_.st_mtime))).encode())
                 for u, out, _ in jobs:
                     hu = hashlib.sha256(hh.digest())
                     hu.update(u.encode())
